@@ -80,6 +80,10 @@ func (r DIDKeyResolver) ResolveKeyByID(keyID string, metadata *ResolveMetadata, 
 		return nil, err
 	}
 	for _, rel := range relationships {
+		if rel.VerificationMethod == nil {
+			// a JSON null in the relationship array is unmarshalled to a relationship without verification method
+			continue
+		}
 		localKeyId := rel.ID.String()
 		if localKeyId == keyID {
 			return rel.PublicKey()
@@ -127,14 +131,18 @@ func (r DIDKeyResolver) ResolveKey(id did.DID, validAt *time.Time, relationType 
 	if err != nil {
 		return "", nil, err
 	}
-	if len(keys) == 0 {
-		return "", nil, ErrKeyNotFound
+	for _, key := range keys {
+		if key.VerificationMethod == nil {
+			// a JSON null in the relationship array is unmarshalled to a relationship without verification method
+			continue
+		}
+		publicKey, err := key.PublicKey()
+		if err != nil {
+			return "", nil, err
+		}
+		return key.ID.String(), publicKey, nil
 	}
-	publicKey, err := keys[0].PublicKey()
-	if err != nil {
-		return "", nil, err
-	}
-	return keys[0].ID.String(), publicKey, nil
+	return "", nil, ErrKeyNotFound
 }
 
 func resolveRelationships(doc *did.Document, relationType RelationType) (relationships did.VerificationRelationships, err error) {
